@@ -2,7 +2,7 @@
    runs of the real code (state before / after the call, shadow CropSharedVars, oracle values) and
    compares every output bit for bit. *)
 From Coq Require Import ZArith List Bool Floats.
-From Hermes Require Import Num CropModel CropNModel.
+From Hermes Require Import Num CropModel CropNModel DevModel.
 Import ListNotations.
 
 (* one evaluation of the N-content functions: inputs with oracle values, the arguments the harness passed to
@@ -118,4 +118,27 @@ Fixpoint dl_mismatches (i : nat) (l : list dl_obs) : list (nat * nat) :=
   | [] => []
   | c :: r => let v := dl_check c in
               if Nat.eqb v 0 then dl_mismatches (S i) r else (i, v) :: dl_mismatches (S i) r
+  end.
+
+(* the development-rate block of one traced day (DevModel): inputs of vern() / FP / devprog for the stage reached,
+   the power oracle of root(); observed: vernalisation days, FV, FP after the call, devprog as mirrored by the
+   harness (it is a local of PhytoOut; the increment it enters is compared by c09_check group 1), POTROOTINGDEPTH.
+   bitmask: 1 vernalisation days / FV, 2 FP, 4 devprog, 8 potential rooting depth *)
+Record dev_obs := { dvo_temp : float; dvo_vt0 : float; dvo_dt : float; dvo_vschwell : float; dvo_dlp : float;
+                    dvo_dayl : float; dvo_dlbas : float; dvo_nons : bool; dvo_reduk : float; dvo_trrel : float;
+                    dvo_dry : float; dvo_lured : float; dvo_p : float;
+                    dvo_o_vt : float; dvo_o_fv : float; dvo_o_fp : float; dvo_o_devprog : float; dvo_o_pot : float }.
+Definition dev_check (o : dev_obs) : nat :=
+  let b (ok : bool) (v : nat) := if ok then 0%nat else v in
+  let '(vt, fv) := dev_fv (dvo_temp o) (dvo_vt0 o) (dvo_dt o) (dvo_vschwell o) in
+  let fp := dev_fp (dvo_dlp o) (dvo_dayl o) (dvo_dlbas o) in
+  let dp := dev_prog (dvo_nons o) (dvo_reduk o) (dvo_trrel o) (dvo_dry o) (dvo_lured o) in
+  let pot := pot_root_depth (root_qrez (dvo_p o)) in
+  (b (float_same vt (dvo_o_vt o) && float_same fv (dvo_o_fv o)) 1 + b (float_same fp (dvo_o_fp o)) 2
+   + b (float_same dp (dvo_o_devprog o)) 4 + b (float_same pot (dvo_o_pot o)) 8)%nat.
+Fixpoint dev_mismatches (i : nat) (l : list dev_obs) : list (nat * nat) :=
+  match l with
+  | [] => []
+  | c :: r => let v := dev_check c in
+              if Nat.eqb v 0 then dev_mismatches (S i) r else (i, v) :: dev_mismatches (S i) r
   end.
